@@ -27,6 +27,8 @@ def histories(quick):
         else:
             # a failed run must leave nothing behind for the next one (always part of the quick tier)
             mids += [('run_poison', 'restart', 'run_a'), ('run_poison', 'restart', 'run_b'), ('kill', 'restart', 'run_b'), ('run_a', 'run_poison', 'restart', 'run_b')]
+        # a restart which cannot stop a stuck worker (forced termination disabled for the restart only) must not abandon its child
+        mids += [('stuck', 'restart_noforce'), ('run_a', 'stuck', 'restart_noforce')]
         for mid in mids:
             ends = ENDS if (len(mid) <= 1 or not quick) else ['exit', 'exc-exit']
             for end in ends:
@@ -66,6 +68,13 @@ def build(h):
             sc.append({'op': 'pool_restart', 'pool': 'p'})
             exp.append(('ret', None, 'restart_workers-fails'))
             alive = [True] * len(alive)
+        elif m == 'restart_noforce':
+            sc.append({'op': 'pool_restart', 'pool': 'p', 'kwargs': {'force': False}})
+            if stuck:
+                exp.append(('exc', 'RuntimeError', 'restart-of-a-worker-which-cannot-be-stopped-did-not-raise'))
+            else:
+                exp.append(('ret', None, 'restart_workers-fails'))
+                alive = [True] * len(alive)
         elif m == 'kill':
             idx = next((i for i, k in enumerate(kinds) if k != 'T'), None)
             if idx is None:
@@ -128,6 +137,9 @@ def judge(sc, exp, obs):
         elif kind == 'no-live-worker':
             r = st.get('ret')
             if not (isinstance(r, list) and ((r[0] == 'ret' and r[1] in (None, [])) or r[0] == 'PoolError')):
+                return [(what, {'step': i, 'got': st})]
+        elif kind == 'exc':
+            if st.get('exc') != val:
                 return [(what, {'step': i, 'got': st})]
         elif kind == 'failed-add':
             if 'exc' not in st:
